@@ -402,6 +402,22 @@ def rule_scsv(ctx):
     for n in own_nodes(fc.node):
         if isinstance(n, ast.If) and norm(n.test) == "settings.sendFallbackSCSV":
             ok = any("append(CipherSuite.TLS_FALLBACK_SCSV)" in norm(x) for x in n.body) and not n.orelse
+    # every ClientHello this function builds carries the list that received the SCSV
+    lst = None
+    for n in own_nodes(fc.node):
+        if isinstance(n, ast.If) and norm(n.test) == "settings.sendFallbackSCSV":
+            for x in n.body:
+                for c in calls_in(x):
+                    if call_name(c) == "append" and "TLS_FALLBACK_SCSV" in norm(c):
+                        lst = attr_chain(c.func.value)
+    creates = [n for n in own_nodes(fc.node) if isinstance(n, ast.Call) and call_name(n) == "create"
+               and norm(n.func.value) == "clientHello"]
+    ctx.require(len(creates) >= 2, "C04.SCSV: ClientHello.create calls not found")
+    for c in creates:
+        ctx.check(R, lst is not None and len(c.args) >= 4 and attr_chain(c.args[3]) == lst, fc.qname,
+                  "ClientHello built with the SCSV-carrying suite list (%s)" % norm(c)[:60],
+                  "a ClientHello is built from a suite list that does not carry TLS_FALLBACK_SCSV "
+                  "(resumption retries would lose downgrade protection)", fc.loc(c))
     others = [n for n in own_nodes(fc.node) if isinstance(n, ast.Call) and "TLS_FALLBACK_SCSV" in norm(n)]
     ctx.check(R, ok and len(others) == 1, fc.qname, "client appends TLS_FALLBACK_SCSV iff sendFallbackSCSV",
               "the client must offer TLS_FALLBACK_SCSV exactly when settings.sendFallbackSCSV is set", fc.loc())
